@@ -866,3 +866,99 @@ Proof.
   - intros E. rewrite E in A. exact A.
   - intros E. rewrite E in B. exact B.
 Qed.
+
+(* ------------------------------------------------------------------ sprintbuf and its temporary *)
+(* one print-buffer call with the ledger: C19 for the contents, and the buffer's block is
+   replaced by exactly one new block when the buffer grew *)
+Lemma lpb_step_spec o q op s rest :
+  PbProofs.Inv (lp_buf q) -> PbProofs.op_wf op ->
+  (forall y, cnt y (live s) = ((if Nat.eqb y (lp_blk q) then 1 else 0) + cnt y rest)%nat) ->
+  match lpb_step o q op s with
+  | Ok (q', r) s' =>
+      PbProofs.Inv (lp_buf q') /\
+      PbProofs.pb_abs (lp_buf q') = PbModel.spec_step (PbProofs.pb_abs (lp_buf q)) op /\
+      (forall y, cnt y (live s') = ((if Nat.eqb y (lp_blk q') then 1 else 0) + cnt y rest)%nat)
+  | Fail s' => live s' = live s
+  | UB => False
+  end.
+Proof.
+  intros HI Hwf HL. unfold lpb_step.
+  pose proof (Properties_C19.C19_step_refines (fun _ => o (nreq s)) (lp_buf q) op HI Hwf) as S.
+  destruct (pb_step (fun _ => o (nreq s)) (lp_buf q) op) as [p' r ws|p' e|]; [| |exact S].
+  - destruct S as (HI' & Ha & _).
+    destruct (size p' =? size (lp_buf q)); [cbn [lp_buf lp_blk]; auto|].
+    unfold realloc_granted. destruct (remove1_ok (lp_blk q) (live s)) as (l & R).
+    { rewrite HL, Nat.eqb_refl. lia. }
+    rewrite R. cbn [lp_buf lp_blk live]. split; [exact HI'|]. split; [exact Ha|].
+    intros y. pose proof (remove1_cnt _ _ _ R y) as C. specialize (HL y). cbn [cnt].
+    destruct (Nat.eqb y (lp_blk q)); lia.
+  - destruct e; reflexivity.
+Qed.
+
+(* sprintbuf as written, every allocator behaviour, every formatted output (short: stack
+   buffer; longer than 127 bytes: vasprintf temporary).  Live before = the buffer's block and
+   [rest].  Done: the contents grew by exactly the output, live = the (possibly new) buffer
+   block and [rest] — the temporary is gone.  Refused (-1): the very same blocks are live
+   (the temporary was released, once) and the buffer is untouched (the model's Fail carries
+   no new buffer).  Never a release of a block that is not live. *)
+Theorem sprintbuf_clean o q out s rest :
+  PbProofs.Inv (lp_buf q) ->
+  Permutation (live s) (lp_blk q :: rest) ->
+  op_fault_clean same_live s
+    (fun s' qr => PbProofs.Inv (lp_buf (fst qr)) /\
+                  PbProofs.pb_abs (lp_buf (fst qr)) = PbProofs.pb_abs (lp_buf q) ++ out /\
+                  Permutation (live s') (lp_blk (fst qr) :: rest))
+    (res_out (sprintbuf o q out s)).
+Proof.
+  intros HI HP. rewrite perm_cnt in HP.
+  assert (HL : forall y, cnt y (live s) = ((if Nat.eqb y (lp_blk q) then 1 else 0) + cnt y rest)%nat)
+    by (intros y; rewrite HP; reflexivity).
+  assert (Hwf : PbProofs.op_wf (OpSprintf out)) by exact I.
+  unfold sprintbuf, sprintbuf_gen. destruct (zlen out >? 127).
+  - unfold alloc. destruct (o (nreq s)); [|reflexivity].
+    set (s1 := mkast (S (nreq s)) (nreq s :: live s)).
+    pose proof (lpb_step_spec o q (OpSprintf out) s1 (nreq s :: rest) HI Hwf) as L.
+    assert (H1 : forall y, cnt y (live s1) = ((if Nat.eqb y (lp_blk q) then 1 else 0) + cnt y (nreq s :: rest))%nat).
+    { intros y. unfold s1. cbn [live cnt]. rewrite HL. lia. }
+    specialize (L H1).
+    destruct (lpb_step o q (OpSprintf out) s1) as [[q' r] s2|s2|]; [| |exact L].
+    + destruct L as (HI' & Ha & HL2). unfold free.
+      destruct (remove1_ok (nreq s) (live s2)) as (l & R).
+      { rewrite HL2. cbn [cnt]. rewrite Nat.eqb_refl. lia. }
+      rewrite R. cbn [res_out op_fault_clean fst live]. split; [exact HI'|]. split; [exact Ha|].
+      rewrite perm_cnt. intros y. pose proof (remove1_cnt _ _ _ R y) as C. rewrite HL2 in C. cbn [cnt] in *. lia.
+    + unfold free. rewrite L. unfold s1. cbn [live nreq]. rewrite remove1_head. reflexivity.
+  - pose proof (lpb_step_spec o q (OpSprintf out) s rest HI Hwf HL) as L.
+    destruct (lpb_step o q (OpSprintf out) s) as [[q' r] s2|s2|]; cbn [res_out op_fault_clean fst]; [|exact L|exact L].
+    destruct L as (HI' & Ha & HL2). split; [exact HI'|]. split; [exact Ha|].
+    rewrite perm_cnt. intros y. rewrite HL2. reflexivity.
+Qed.
+
+(* negative control: the "flattened" long branch (one early return -1 for both failures).
+   A fresh 32-byte buffer (block 0), an output of 200 bytes: the temporary is request 10, the
+   realloc that must grow the buffer is request 11 and is refused: -1 is returned and block 10
+   — the temporary — is still live. *)
+Definition ex_lpb : lpb := mklpb pb_new 0.
+Definition ex_out200 : list byte := repeat 120 200.
+
+Theorem sprintbuf_tmp_leak_refuted :
+  sprintbuf_flat (single_fault 11) ex_lpb ex_out200 (mkast 10 [0%nat]) = Fail (mkast 12 [10; 0]%nat) /\
+  ~ op_fault_clean same_live (mkast 10 [0%nat]) (fun _ _ => True)
+      (res_out (sprintbuf_flat (single_fault 11) ex_lpb ex_out200 (mkast 10 [0%nat]))) /\
+  sprintbuf (single_fault 11) ex_lpb ex_out200 (mkast 10 [0%nat]) = Fail (mkast 12 [0%nat]) /\
+  sprintbuf (single_fault 10) ex_lpb ex_out200 (mkast 10 [0%nat]) = Fail (mkast 11 [0%nat]) /\
+  match sprintbuf no_fault ex_lpb ex_out200 (mkast 10 [0%nat]) with
+  | Ok (q', r) s' => r = 200 /\ live s' = [11%nat] /\ lp_blk q' = 11%nat /\ pb_text (lp_buf q') = ex_out200
+  | _ => False
+  end /\
+  match sprintbuf (single_fault 10) ex_lpb (repeat 120 20) (mkast 10 [0%nat]) with
+  | Ok (q', r) s' => r = 20 /\ live s' = [0%nat] /\ nreq s' = 10%nat      (* short output: no request at all *)
+  | _ => False
+  end.
+Proof.
+  assert (E : sprintbuf_flat (single_fault 11) ex_lpb ex_out200 (mkast 10 [0%nat]) = Fail (mkast 12 [10; 0]%nat))
+    by (vm_compute; reflexivity).
+  split; [exact E|]. split.
+  - rewrite E. cbn [res_out op_fault_clean]. unfold same_live. cbn [live]. discriminate.
+  - vm_compute. repeat split.
+Qed.
